@@ -117,13 +117,22 @@ def tcp_lifecycle(chk):
         chk.broken_obligation("harness:tcp-life-C12", "%d of %d cases did not reach READY over loopback TCP" % (notready, len(cases)))
 
 
+# minimised / original triggers of the defects these programs found (they run on every tier): e3eeaf1 (pruning without a selected pair), 0b161c7
+# (key leak in the FORBIDDEN branch, OC2007), cbdb5cd (nominated pair without selected pair, WLM2009)
+API_CORPUS = [
+    ('apiK1 seed,958982350 agent,0,4,1,32,10.0.0.1,10.0.0.2 agent,1,4,0,1,10.0.1.1 net,0,0.1,1,30,3 stream,0,1 stream,1,1 gather,0,1 gather,1,1 run,0 cands,1,0,1,1 run,20 creds,1,0,1 run,200 creds,0,1,1 run,20 cands,0,1,1,1 run,0 send,1,1,3,20000,79 gather,1,1 run,25 gather,1,1 set_selected,0,1,1 send,0,1,9,20000,62 creds,0,1,1 sdpgen,0 sdpbad,1,0,2 forget,0,1,3 hole,10.0.0.1,10.0.1.1,off stream,1,2 gather,0,7 creds,1,0,1 run,25 peerrfx,0,1,2,2 gather,1,2 gather,0,1 recvfail,10.0.0.1,2 run,31000 stream,1,2 detach,0,1,2 sdpgen,0 sdpbad,1,0,4 sendfail,10.0.0.1,off run,1 recvfail,10.0.0.1,0 sdpgen,0 sdpbad,1,0,5 run,10 sdpgen,1 sdpbad,0,1,3 set_selected,0,1,1 restart,0 creds,0,1,1 run,3000 tracetimers,1 run,20000,idle tracetimers,0 unref,0 close,1 run,0 unref,1 run,50', {"kind": "api-program", "ncomp": 1}),
+    ('apiK2 seed,752364078 agent,0,4,1,33,10.0.0.1,10.0.0.2 agent,1,4,0,33,10.0.1.1 net,0.2,0,1,1,3 stream,0,1 stream,1,1 gather,0,1 gather,1,1 run,30 creds,1,0,1 cands,0,1,1,1 creds,0,1,1 run,20 cands,1,0,1,1 run,1 run,300 stream,0,1 consent_lost,0,1,1 set_selected,1,1,2 creds,1,0,1 run,10 consent_lost,0,1,1 remove_stream,1,7 run,300 setremote,1,3,2 sendfail,10.0.1.1,off remove_stream,1,1 stream,0,2 sendfail,10.0.0.1,off attach,1,1,2 detach,1,0,1 restart,1 setalien,0,3,2,0 send,0,1,2,1472,137 cands,1,0,2,1 creds,1,0,2 attach,0,1,2 restart,0 set_selected,1,1,2 restart_stream,1,2 run,10 forget,0,1,1 creds,1,0,2 tos,0,1,46 creds,0,1,2 peerrfx,0,1,1,2 remotecands,0,7,1 remove_stream,0,0 localcands,1,7,9 gather,1,1 gather,0,1 remove_stream,0,1 cands,1,0,2,1 attach,0,1,1 creds,1,0,1 creds,1,0,1 cands,1,0,1,2 consent_lost,1,1,2 restart,1 run,0 recvfail,10.0.0.1,0 stream,1,2 recvfail,10.0.1.1,0 stream,0,1 run,3000 tracetimers,1 run,20000,idle tracetimers,0 close,1 run,3000 unref,1 unref,0 run,0', {"kind": "api-program", "ncomp": 1}),
+    ('apiK3 seed,991379550 agent,0,3,1,0,10.0.0.1 agent,1,3,0,0,10.0.1.1 stream,0,1 stream,1,1 hole,10.0.1.1,10.0.0.1,on gather,0,1 gather,1,1 run,10 creds,0,1,1 cands,1,0,1,1 creds,1,0,1 run,200 cands,0,1,1,1 run,3000 tracetimers,1 run,20000,idle tracetimers,0 unref,0 unref,1 run,50', {"kind": "api-program", "ncomp": 1}),
+]
+
+
 def run(chk):
     gi, err = pregen()
     if gi is None:
         chk.broken_obligation("translator/table-extractor", err)
     chk.prove(["Props/Properties_C12.v"])
     n = 1500 if chk.tier == "quick" else 60000
-    cases = [sc.gen_api_program(chk.rng, i) for i in range(n)]
+    cases = API_CORPUS + [sc.gen_api_program(chk.rng, i) for i in range(n)]
     sc.run_sim(chk, cases, oracle, "sim-C12", leaks=True, compare=False)
     tcp_lifecycle(chk)
     import c12_own
